@@ -107,7 +107,14 @@ def compare(ctx, janet, exe, seqs, flags):
         if a != b:
             diffs.append({"ops": " ".join(s), "impl": a, "model": b})
         # direct oracle on the implementation trace (no model involved)
+        if "c" not in s and a != b:
+            pass
         if "c" not in s:
+            try:
+                int(a.split(" ; ")[-1].split(" ")[0]); a.split(" ; ")[-1].split(" d=")[1]
+            except (ValueError, IndexError):
+                impl_oracle_failures.append({"sig": "malformed-receipt", "ops": " ".join(s), "observed": a, "why": "single-loop history `%s`: unparsable observation %r" % (" ".join(s), a[:200])})
+                continue
             given = [o.split(":")[1] for o in s if o[0] == "g"]
             last = a.split(" ; ")[-1]
             cnt = int(last.split(" ")[0])
